@@ -21,7 +21,7 @@
 //! unless `C06_PARSE_STRICT=1`.
 
 use crate::generate::Case;
-use roto::verif_hooks::c06::{char_flags, escape_range, lex_all, literal_verdict_rel as literal_verdict, parse_probe};
+use roto::verif_hooks::c06::{char_flags, escape_range, lex_all, literal_verdict_rel as literal_verdict, parse_probe, parse_signature_probe};
 use rotov_harness::Report;
 use rotov_harness::driver::{Driver, hex};
 use serde_json::json;
@@ -336,8 +336,58 @@ fn push_mismatch(rep: &mut Report, key: &str, src: &str, d: &Diff, idx: u64) {
     }));
 }
 
+/// `Parser::parse_signature` (src/parser/signature.rs: `fn[T, …](type, …) -> type`) against the
+/// model's `c06 parsesig`, on a text that starts with `fn` (every such input of the differential,
+/// and the signature representatives). No literal is ever decoded by `signature`.
+fn run_signature(src: &str, drv: &mut Driver, rep: &mut Report, input: &serde_json::Value, idx: u64) {
+    crate::stage("parsesig-real");
+    let real = parse_signature_probe(src);
+    if real.starts_with("panic") {
+        crate::viol(
+            rep,
+            &format!("parse_signature panicked: {}", real.chars().take(160).collect::<String>()),
+            "panic in parse_signature",
+            input.clone(),
+        );
+        return;
+    }
+    crate::stage("parse-model");
+    let h = if src.is_empty() { "-".to_string() } else { hex(src) };
+    let mut d = Diff { real, model: String::new(), rounds: 1, lits: Vec::new(), verdict: Verdict::Equal };
+    match ask_guarded(drv, &format!("c06 parsesig {h} {}", flag_table(src))) {
+        Ok(a) => d.model = a.trim_end().to_string(),
+        Err(why) => {
+            d.model = why;
+            rep.hist("parsesig_model", "failed: driver-died");
+            push_mismatch(rep, "parsesig-diff driver-died", src, &d, idx);
+            return;
+        }
+    }
+    if d.model == "bad-op" {
+        rep.hist("parsesig_model", "bad-op (no signature model in the driver)");
+        if strict() {
+            push_mismatch(rep, "parsesig-diff model-unavailable (bad-op)", src, &d, idx);
+        }
+        return;
+    }
+    rep.evaluations += 1;
+    rep.hist("parsesig_outcome", outcome_of(&d.real));
+    if d.model == d.real.trim_end() {
+        rep.hist("parsesig_model", "equal");
+    } else {
+        rep.hist("parsesig_model", "different");
+        let key = diff_key(&d.real, &d.model).replace("parse-diff", "parsesig-diff");
+        push_mismatch(rep, &key, src, &d, idx);
+    }
+}
+
 /// Run the differential on one source and fold the result into the report.
-pub fn run_one(src: &str, toks: Option<&[Tok]>, drv: Option<&mut Driver>, rep: &mut Report, input: &serde_json::Value, idx: u64) -> Diff {
+pub fn run_one(src: &str, toks: Option<&[Tok]>, mut drv: Option<&mut Driver>, rep: &mut Report, input: &serde_json::Value, idx: u64) -> Diff {
+    if src.trim_start().starts_with("fn") {
+        if let Some(drv) = drv.as_deref_mut() {
+            run_signature(src, drv, rep, input, idx);
+        }
+    }
     let d = diff_source(src, toks, drv);
     let outcome = outcome_of(&d.real);
     rep.hist("parse_outcome", outcome.clone());
@@ -889,6 +939,25 @@ pub fn representative_sources() -> Vec<String> {
         v.push(FULL[..*e].to_string());
         if e - s > 1 {
             v.push(FULL[..*s + 1].to_string());
+        }
+    }
+    // ---- signatures (`Parser::parse_signature`; as programs they are rejected inputs): every
+    // type form, type parameters, trailing commas, and truncations after every byte of one of them
+    const SIG: &str = "fn[T, U](i32, List[T]?, {a: U, b: ()}, !, a.b.C[T, U]?,) -> Option[T]??";
+    for b in [
+        "fn()", "fn() -> ()", "fn(i32)", "fn(i32,)", "fn(i32, u8) -> bool", "fn[T](T) -> T", "fn[T,](T)", "fn[](T)",
+        "fn[T, U](T, U) -> {a: T, b: U}", "fn(List[i32]) -> i32?", "fn(a.b.C)", "fn(pkg.a.B, super.C, dep.x.Y)",
+        "fn({}) -> {}", "fn({a: i32,}) -> !", "fn(()) -> ()", "fn(T??)", "fn(List[List[T]?]?)", "fn(A[]) -> B[T,]",
+        "fn", "fn(", "fn)", "fn[", "fn[T", "fn[T](", "fn(i32", "fn(i32 u8)", "fn(i32) ->", "fn(i32) -> ->", "fn(i32) i32",
+        "fn(1)", "fn(fn)", "fn(std.X)", "fn(if)", "fn[1](T)", "fn[T U](T)", "fn(i32) -> i32 x", "fn(i32) -> i32 \u{20ac}",
+        "fn(\u{20ac})", "fn({a i32})", "fn({a:})", "fn(()", "fn(( ))", "fn(!?) -> !?", "fn (i32)", "fn// c\n(i32)",
+        "function(i32)", "fn(struct)", "fn(var, def)",
+    ] {
+        v.push(b.to_string());
+    }
+    for i in 0..=SIG.len() {
+        if SIG.is_char_boundary(i) {
+            v.push(SIG[..i].to_string());
         }
     }
     let mut seen = std::collections::BTreeSet::new();
